@@ -12,8 +12,6 @@ import (
 	"github.com/freeconf/yang/meta"
 	"github.com/freeconf/yang/node"
 	"github.com/freeconf/yang/nodeutil"
-	"github.com/freeconf/yang/parser"
-	"github.com/freeconf/yang/source"
 	"github.com/freeconf/yang/val"
 )
 
@@ -130,14 +128,7 @@ func C04(c *core.Ctx) {
 		c15seq = 0
 		sc := &c15schema{types: map[string]c15type{}, lists: map[string]bool{}, mod: map[string]string{}}
 		sc.kids = c15genKids(r, sc, ts, 0, 2+r.Intn(4), "m")
-		gc := &gen.SNode{Name: "gwrap", Kind: "cont", Kids: []*gen.SNode{{Name: "gl", Kind: "leaf", Type: "string"}, {Name: "gc", Kind: "cont", Kids: []*gen.SNode{{Name: "gx", Kind: "leaf", Type: "int32"}}}}}
-		sc.mod["gwrap"], sc.mod["gl"], sc.mod["gc"], sc.mod["gx"] = "m", "g", "g", "g"
-		sc.types["gl"], sc.types["gx"] = ts[0], ts[3]
-		sc.kids = append(sc.kids, gc)
-		y := "module m { namespace \"urn:m\"; prefix m; import g { prefix g; } revision 2020-01-01;\n identity idb; identity d1 { base idb; } identity d2 { base d1; }\n" +
-			c15yang(sc, sc.kids[:len(sc.kids)-1], "  ") + "  container gwrap { uses g:grp; }\n}\n"
-		opener := source.Any(source.Named("m", strings.NewReader(y)), source.Named("g", strings.NewReader(c15imported)))
-		m, err := parser.LoadModule(opener, "m")
+		m, y, err := c15module(sc, ts)
 		if err != nil {
 			c.Violation(core.Replay{Kind: "harness", Summary: "C04 module does not load: " + err.Error(), Input: y, NoInputFound: true})
 			return
